@@ -69,7 +69,7 @@ def _replay_tables_chunk(chunk):
 def replay_tables(chk, tables, nontrivial=lambda c: True):
     idx = list(enumerate(tables))
     random.Random(core.SEED).shuffle(idx)
-    for fails, n in core.pmap(_replay_tables_chunk, core.shards(idx, 64)):
+    for fails, n in core.pmap(_replay_tables_chunk, core.shards(idx, 64), split=lambda ch: [[x] for x in ch]):
         chk.evaluations += n
         for f in fails:
             chk.report(f["key"], payload=f)
@@ -285,7 +285,7 @@ def replay_values(chk, cases, expected):
     items = [(i, c, expected[i + 1]) for i, c in enumerate(cases) if (i + 1) in expected]
     if len(items) != len(cases):
         raise RuntimeError("Gen_ConvValue emitted %d of %d cases" % (len(items), len(cases)))
-    for fails, n in core.pmap(_value_chunk, core.shards(items, 32)):
+    for fails, n in core.pmap(_value_chunk, core.shards(items, 32), split=lambda ch: [[x] for x in ch]):
         chk.evaluations += n
         for f in fails:
             chk.report(f["key"], payload=f)
@@ -337,7 +337,7 @@ def check_bilinearity(chk, rng, n):
         D = rng.choice([2, 2, 3])
         cfg = random_cfg(rng, D, maxN=4 if D == 2 else 2, maxM=3 if D == 2 else 2)
         items.append((rng.randint(0, 10 ** 6), cfg, rng.randint(0, 2 if D == 2 else 1), rng.randint(0, 1)))
-    for fails, ne in core.pmap(_bilinear_chunk, core.shards(items, 16)):
+    for fails, ne in core.pmap(_bilinear_chunk, core.shards(items, 16), split=lambda ch: [[x] for x in ch]):
         chk.evaluations += ne
         for f in fails:
             chk.report(f["key"], payload=f)
@@ -421,7 +421,7 @@ def _equiv_chunk(chunk):
 
 def check_equivariance_on_code(chk, cases):
     items = [(i, c) for i, c in enumerate(cases) if c["hasg"]]
-    for fails, ne in core.pmap(_equiv_chunk, core.shards(items, 32)):
+    for fails, ne in core.pmap(_equiv_chunk, core.shards(items, 32), split=lambda ch: [[x] for x in ch]):
         chk.evaluations += ne
         for f in fails:
             chk.report(f["key"], payload=f)
